@@ -21,6 +21,7 @@ type attemptOpts struct {
 	handlerDelay time.Duration // per call
 	blockAt      int           // handler call index that blocks until released by the stop (-1: never)
 	cancelAfter  int           // cancel once this many handler calls completed (-1: never)
+	slowLog      time.Duration // > 0: the library logs at debug level into a sink that stalls each call up to this long
 	cancelAtSent int           // cancel once the master has written this many event packets (-1: never)
 	cancelLate   bool          // cancel after Stream returned, before Error()
 	mapperMode   string
@@ -90,6 +91,9 @@ func runAttempt(s *gobinlog.Streamer, m *simMaster, h *hist, mapper *tblMapper, 
 	defer streamMu.Unlock()
 	var res attemptResult
 	res.snapshotsEqual = true
+	if o.slowLog > 0 {
+		defer slowLog(o.slowLog)()
+	}
 	preexisting := libraryGoroutines()
 	mapper.mode = o.mapperMode
 	m.resetProgress()
